@@ -34,3 +34,6 @@ def run(repo, res, tier):
     # the token in front of which an empty value is supplied: reserved keywords and statement delimiters only
     from .. import langrules as _lr5
     _lr5.rule_hook_lang(repo, res, _lr5.analyse(repo))
+    # the name the repair hook gives the next statement is the text that stood in the label
+    from .. import hookrules as _hk8
+    _hk8.rule_token_src(repo, res)
